@@ -150,8 +150,125 @@ def frameFails (f : String) : List String :=
     | _, _, _, _, _ => [""]
   | _ => [""]
 
+/-! ### seq cases: one client, several connections, the advertised table changes (harness/cmd/c21/seq.go)
+
+    seq <umax> <umin> <step>…  |  <event>…
+
+Events, in the order the broker side saw them: `A:obj:conn:table`, `W:obj:conn:key:version:cmax:umax:umin:ct:step`,
+`E:obj:key:cmax:umax:umin:class:step`, `X:step`. The model keeps, per broker object, the stored table
+(`stepStored` on every `A`) and recomputes the version / error class of every `W` / `E` (`stepOut`); the
+verdict is `Spec.obsOk` of every `W` / `E` against the history of its broker object. -/
+
+def parseTable (s : String) : Option (List ApiKey) :=
+  (s.splitOn ",").mapM fun e =>
+    match e.splitOn "." with
+    | [k, lo, hi] => match k.toInt?, lo.toInt?, hi.toInt? with
+      | some k, some lo, some hi => some ⟨k, lo, hi⟩
+      | _, _, _ => none
+    | _ => none
+
+/-- the client's `kversion.Versions` as far as the model reads it for one key (and key 18, which every seq client has) -/
+def seqVersions (key : Int) (tok : String) (isMax : Bool) : Option Versions :=
+  match userTok tok with
+  | .unset => none
+  | .missing => some (if isMax then [(18, 4)] else [(key + 1000, 0)])
+  | .val n => some (if isMax ∧ key ≠ 18 then [(key, n), (18, 4)] else [(key, n)])
+
+structure SeqObj where
+  name : String
+  stored : StoredV := none
+  /-- what the broker side saw of this object, newest first -/
+  seenRev : List Spec.Obs := []
+  firstTable : String := ""
+  changed : Bool := false
+
+structure SeqSt where
+  objs : List SeqObj := []
+  out : List String := []
+  fails : List String := []
+  nontrivial : Bool := false
+
+def SeqSt.get (st : SeqSt) (n : String) : SeqObj :=
+  match st.objs.find? (·.name == n) with | some o => o | none => { name := n }
+
+def SeqSt.put (st : SeqSt) (o : SeqObj) : SeqSt :=
+  { st with objs := o :: st.objs.filter (·.name != o.name) }
+
+def errClass : Out → String
+  | .ok _ => "ok"
+  | .errUnknownRequestKey => "unknownkey"
+  | .errBrokerTooOld => "tooold"
+  | .userMinError _ _ => "usermin"
+
+/-- an unusable entry: absent, or advertised with a negative max -/
+def unusable (br : Spec.Broker) : Bool :=
+  match br with | .missing => true | .range _ hi => decide (hi < 0) | .noApi => false
+
+/-- Stable class of a written request that the Spec rejects. -/
+def seqClassW (seenRev : List Spec.Obs) (key v : Int) : String :=
+  let br := Spec.brokerAt seenRev key
+  if unusable br ∧ (key = 0 ∨ unusable (Spec.brokerAt seenRev 0)) then "key-missing-without-produce-key"
+  else match br with
+    | .missing => "version-outside-latest-advertised-range"
+    | .range lo hi => if v < lo ∨ v > hi then "version-outside-latest-advertised-range" else ""
+    | .noApi => ""
+
+def seqEvent (st : SeqSt) (tok : String) : SeqSt :=
+  match tok.splitOn ":" with
+  | ["A", obj, _, table] =>
+    match parseTable table with
+    | none => { st with out := st.out ++ ["bad-table"], fails := st.fails ++ [""] }
+    | some t =>
+      let o := st.get obj
+      let o := { o with stored := stepStored none o.stored (.connect t), seenRev := .adv t :: o.seenRev,
+                        firstTable := if o.seenRev.isEmpty ∧ o.firstTable = "" then table else o.firstTable,
+                        changed := o.changed || (o.firstTable ≠ "" && o.firstTable ≠ table) }
+      { st.put o with out := st.out ++ [tok] }
+  | ["W", obj, conn, key, v, cmax, umax, umin, ct, stp] =>
+    match key.toInt?, v.toInt?, cmax.toInt? with
+    | some k, some v, some c =>
+      let o := st.get obj
+      let mtok := match stepOut (seqVersions k umax true) (seqVersions k umin false) o.stored (.request { key := k, cmax := c }) with
+        | .clamped (.ok mv) => s!"W:{obj}:{conn}:{key}:{mv}:{cmax}:{umax}:{umin}:{ct}:{stp}"
+        | .clamped e => s!"E:{obj}:{key}:{cmax}:{umax}:{umin}:{errClass e}:{stp}"
+        | _ => s!"P:{obj}:{key}:nil-versions:{stp}"
+      let ob : Spec.Obs := .wrote k c none none (userTok umax) (userTok umin) v
+      let fails := if Spec.obsOk o.seenRev ob then [] else [seqClassW o.seenRev k v]
+      { st.put { o with seenRev := ob :: o.seenRev } with
+        out := st.out ++ [mtok], fails := st.fails ++ fails, nontrivial := st.nontrivial || o.changed }
+    | _, _, _ => { st with out := st.out ++ ["bad-event"], fails := st.fails ++ [""] }
+  | ["E", obj, key, cmax, umax, umin, _, stp] =>
+    match key.toInt?, cmax.toInt? with
+    | some k, some c =>
+      let o := st.get obj
+      let mtok := match stepOut (seqVersions k umax true) (seqVersions k umin false) o.stored (.request { key := k, cmax := c }) with
+        | .clamped (.ok mv) => s!"W:{obj}:?:{key}:{mv}:{cmax}:{umax}:{umin}:?:{stp}"
+        | .clamped e => s!"E:{obj}:{key}:{cmax}:{umax}:{umin}:{errClass e}:{stp}"
+        | _ => s!"P:{obj}:{key}:nil-versions:{stp}"
+      let ob : Spec.Obs := .failed k c none none (userTok umax) (userTok umin)
+      let fails := if Spec.obsOk o.seenRev ob then [] else ["failed-though-latest-advertised-range-admits"]
+      { st.put { o with seenRev := ob :: o.seenRev } with
+        out := st.out ++ [mtok], fails := st.fails ++ fails, nontrivial := st.nontrivial || o.changed }
+    | _, _ => { st with out := st.out ++ ["bad-event"], fails := st.fails ++ [""] }
+  | ["X", _] => { st with out := st.out ++ [tok] }
+  | _ => if tok = "-" then { st with out := st.out ++ [tok] } else { st with out := st.out ++ ["bad-event"], fails := st.fails ++ [""] }
+
+def seqStep (impl : String) : String :=
+  let st := (toks impl).foldl seqEvent {}
+  let verdict :=
+    if st.fails.isEmpty then "1"
+    else if st.fails.any (· = "") then "0"
+    else match st.fails.filter (· ≠ "key-missing-without-produce-key"), st.fails with
+      | k :: _, _ => "0:" ++ k
+      | [], k :: _ => "0:" ++ k
+      | [], [] => "1"
+  s!"{" ".intercalate st.out} | {verdict} | {boolStr st.nontrivial}"
+
 def step (_ : Unit) (line : String) : Unit × String :=
   let (op, impl) := splitBar line
+  if (toks op).head? = some "seq" then
+    if impl = "bad-op" then ((), "bad-op | - | 0") else ((), seqStep impl)
+  else
   match parseOp (toks op) with
   | none => ((), "bad-op | - | 0")
   | some o =>
